@@ -78,6 +78,16 @@ def walkers_only_swap_targets(repo: Repo, R):
     vm = repo.func(F_WALKER, "HierarchyWalker.visit_module")
     ok = any(isinstance(n, ast.For) and ast.unparse(n.iter) == "module.instances.values()" and bool(pat.find("self.visit_instance(inst)", n)) for n in au.walk_no_nested(vm.node)) and ast.unparse(vm.node.body[-1]) == "return module"
     R.check(ok, rule, key_of(vm), vm.site, f"visit_module visits every instance and returns the same module: {ok}", why="some instances are not compiled, or modules are replaced")
+    early = [n for n in au.walk_no_nested(vm.node) if isinstance(n, ast.Return) and n is not vm.node.body[-1]]
+    R.check(not early, rule, key_of(vm, "no-memo"), vm.site,
+            "visit_module has no early exit: a module is (re)visited on every walk" if not early else f"visit_module returns early at line {early[0].lineno}: some walks skip the module",
+            why="a later compile (another PDK, a retry after an error, any second walker) silently skips modules an earlier walk has entered: their primitives stay uncompiled")
+    for rel2, cls2 in WALKERS:
+        ci2 = repo.cls(rel2, cls2)
+        shared_state = [k for k, v in ci2.class_attrs.items() if isinstance(v, (ast.Dict, ast.List, ast.Set)) or (isinstance(v, ast.Call) and (dotted(v.func) or "") in ("set", "dict", "list", "defaultdict", "WeakSet"))]
+        R.check(not shared_state, rule, f"{rel2}::{cls2}::class-state", ci2.site,
+                f"{cls2} keeps no mutable class-level state" if not shared_state else f"{cls2} has mutable class attribute(s) {shared_state}, shared by every walker instance for the life of the process",
+                why="what one walk records changes what every later walk (of any PDK) does")
     vt = repo.func(F_WALKER, "HierarchyWalker.visit_instantiable")
     h = shared.isinstance_handled if False else None
     from .common import isinstance_handled, union
